@@ -76,11 +76,13 @@ def analysis_case(rec, seedt, nmax):
     resultcheck.c11_identities(res, rec, desc["fs"], tag)
     api.check_result(res, data, desc, rec, f"scatter[{desc['backend']}]", max_bins=25, rng=rng)
     an = SpectrumAnalyzer(data, desc["fs"], **api.analyzer_kwargs(desc))
-    r1 = api.attempt(rec, lambda: an.compute_single_bin(float(rng.uniform(0.02, 0.45)) * desc["fs"],
-                                                        L=int(min(desc["N"], rng.choice([8, 50, 300])))))
-    if r1 is not None:
-        resultcheck.c11_identities(r1, rec, desc["fs"], "[single-bin] ")
-        api.check_result(r1, data, desc, rec, f"scatter-single[{desc['backend']}]")
+    for _ in range(2):
+        fq, skw, lab = api.single_bin_request(rng, desc["fs"], desc["N"])
+        r1 = api.attempt(rec, lambda: an.compute_single_bin(fq, **skw))
+        if r1 is not None:
+            rec.distinct("single_bin_forms", lab)
+            resultcheck.c11_identities(r1, rec, desc["fs"], f"[single-bin {lab}] ")
+            api.check_result(r1, data, desc, rec, f"scatter-single[{desc['backend']}]")
 
 
 def mc_cell(rec, params):
